@@ -51,6 +51,10 @@ class Pair:
         core.setup_repo_path()
         logging.disable(logging.CRITICAL)
         from klongpy.repl import create_repl
+        import klongpy.sys_fn_ipc as ipc
+        # klongpy keeps one process-wide server handler; a pair created later in the same process starts from a fresh one
+        # (whatever state an earlier pair left it in)
+        ipc._ipc_tcp_server = ipc.TcpServerHandler()
         self.ks, self.ls = create_repl()
         for attempt in range(5):
             self.port = free_port()
